@@ -57,6 +57,7 @@ class Ctx:
         self.heap = {}
         self.depth = 0
         self.notes = []
+        self.boxcache = {}
 
     def fork(self):
         c = Ctx()
@@ -67,6 +68,7 @@ class Ctx:
         c.heap = {k: h.copy() for k, h in self.heap.items()}
         c.depth = self.depth
         c.notes = list(self.notes)
+        c.boxcache = dict(self.boxcache)
         return c
 
     @property
@@ -177,8 +179,9 @@ class Engine:
         if z3.is_false(cond):
             yield ctx, False
             return
-        t = self.feasible(ctx, [cond])
-        f = self.feasible(ctx, [z3.Not(cond)])
+        self.stats['forks'] += 2
+        t, f = smt.check_branch(ctx.pc, cond, timeout_ms=3000, seed=self.seed)
+        self.stats['infeasible'] += (not t) + (not f)
         if t and f:
             c2 = ctx.fork()
             ctx.assume(cond)
@@ -212,7 +215,18 @@ class Engine:
             if s == 'R':
                 return smt.box_real(val.t)
         if isinstance(val, PySeq):
+            # structurally equal sequences box to the same constant on a path (V is not extensional)
+            key = [val.kind]
+            for sg in val.segs:
+                if isinstance(sg, Fixed):
+                    key.append(('F',) + tuple(self.to_v(ctx, it).get_id() for it in sg.items))
+                else:
+                    key.append(('V', sg.arr.get_id(), z3.simplify(sg.lo).get_id(), z3.simplify(sg.hi).get_id()))
+            key = tuple(key)
+            if key in ctx.boxcache:
+                return ctx.boxcache[key]
             v = smt.fresh('seq', V)
+            ctx.boxcache[key] = v
             ctx.assume(smt.kind(v) == (smt.K_TUPLE if val.kind == 'tuple' else smt.K_LIST))
             n = val.length()
             ctx.assume(smt.vlen(v) == n)
